@@ -25,7 +25,16 @@ def check_record(args):
     if rec.get('reject'):
         return out
     try:
-        m = T.build(inp, ground, T.Concretiser())
+        if mode == 'exact':
+            conc = T.Concretiser()
+        else:
+            # ends the specification joins a hair apart (below the matching tolerance), ends it keeps apart a few
+            # tolerances from each other: the J / E lines must follow the documented matching rule
+            import random
+            from .c12 import NearMiss
+            rnd = random.Random('%s/%s/%s' % (sd, mode, C.h(inp)))
+            conc = T.Concretiser(rnd, jitter=1e-5) if mode == 'jitter' else NearMiss(rnd, inp, diag=(mode == 'nearmiss-diag'))
+        m = T.build(inp, ground, conc)
         lines, rows = T.decode_lines(m)
     except R.ReportError as e:
         out['mism'].append(('report-grammar', str(e)))
@@ -99,6 +108,12 @@ def jobs(chk, tier):
     for r, g, cfg in T.records(chk, tier, INVS, runs=T.deep_runs(tier)):
         if not r.get('reject'):
             yield (r, g, 'exact', sd)
+            if len(r['input']) >= 2 and not any(o.get('kind') == 'A' for o in r['input']):
+                k = C.pick(('c09-near', C.h(r['input']), g), 1.0 if tier == 'thorough' else 0.34, sd)
+                if k:
+                    yield (r, g, 'jitter', sd)
+                    yield (r, g, 'nearmiss', sd)
+                    yield (r, g, 'nearmiss-diag', sd)
 
 
 def signature(kind, d, rec):
